@@ -98,3 +98,16 @@ int main(int argc, char **argv) {
 // sanitizer defaults: classify by exit code, no leak checking (the ledger does that deterministically)
 extern "C" __attribute__((used, visibility("default"))) const char *__asan_default_options() { return "exitcode=77:detect_leaks=0:abort_on_error=0:allocator_may_return_null=1:detect_stack_use_after_return=0:malloc_context_size=6"; }
 extern "C" __attribute__((used, visibility("default"))) const char *__ubsan_default_options() { return "print_stacktrace=0:halt_on_error=0"; }
+
+// ---- C bridge for the component worlds written in C (srm.c, seg.c) ----------------------------------
+static const J *walk(const char *path) { const J *j = &g_case; std::string p(path); size_t s = 0; while (s < p.size()) { size_t e = p.find('.', s); if (e == std::string::npos) e = p.size(); j = &(*j)[p.substr(s, e - s).c_str()]; s = e + 1; } return j; }
+extern "C" long long c_case_int(const char *path, long long def) { const J *j = walk(path); return j->t == J::NUM || j->t == J::BOOL ? j->I() : def; }
+extern "C" void c_result_int(const char *key, long long v) { g_result.set(key, v); }
+extern "C" void c_result_str(const char *key, const char *v) { g_result.set(key, std::string(v)); }
+extern "C" void c_result_push_int(const char *key, long long v) { if (!g_result.has(key)) g_result.set(key, J::arr()); for (auto &p : g_result.o) if (p.first == key) p.second.push(J(v)); }
+extern "C" void c_oracle_fail(const char *name, const char *detail) { oracle_fail(name, detail); }
+extern "C" void c_sim_start(void) { static SimConfig sc; sim_config_from_case(g_case, sc); sim_start(&sc, world_fatal); }
+extern "C" void c_events_summary(void) { J ev; events_summarize(ev); g_result.set("events", ev); }
+extern "C" void srm_world_main(void); extern "C" void seg_world_main(void);
+void run_srm_world() { srm_world_main(); }
+void run_seg_world() { seg_world_main(); }
